@@ -19,6 +19,7 @@ import (
 	"log/slog"
 	"os"
 	"path/filepath"
+	"runtime"
 	"sort"
 	"strings"
 	"sync"
@@ -937,6 +938,11 @@ func replayReal(bi int, beh []mbt.Step, in *mbt.Input, res *mbt.Result) {
 		return
 	}
 	if msg, known := c.requireCheckpoint(&v, 10); msg != "" {
+		if f := os.Getenv("MEMBERSHIP_STACKS"); f != "" {
+			buf := make([]byte, 1<<22)
+			buf = buf[:runtime.Stack(buf, true)]
+			os.WriteFile(f, buf, 0o644)
+		}
 		viol(len(beh), known, "%s", msg)
 		return
 	}
